@@ -67,10 +67,15 @@ class YowMediaProtocolLayer(YowProtocolLayer):
                 self.toLower(MediaMessageProtocolEntity.fromProtocolTreeNode(node).ack(True).toProtocolTreeNode())
 
     def isSenderKeyDistributionOnly(self, mediaNode):
+        # the sender key and nothing else, known or unknown field (as in the messages layer): anything next to the key
+        # is content and must at least be receipted
         message = Message()
         message.ParseFromString(mediaNode.getData())
-        fields = message.ListFields()
-        return len(fields) == 1 and fields[0][0].name == "sender_key_distribution_message"
+        if not message.HasField("sender_key_distribution_message"):
+            return False
+        keyOnly = Message()
+        keyOnly.sender_key_distribution_message.CopyFrom(message.sender_key_distribution_message)
+        return message.SerializeToString() == keyOnly.SerializeToString()
 
     def sendIq(self, entity):
         """
